@@ -57,10 +57,14 @@ Record state := mkState {
   (* running EstablishLinkWithPeer(src, dst) directives with the values their
      establishLinkResolver emitted at its last pass (it only re-reads the
      table when woken by broadcast()) *)
-  st_dirs : list (Z * Z * list nat)
+  st_dirs : list (Z * Z * list nat);
+  st_ready : bool                 (* c.tpt != nil: Execute has constructed the transport *)
 }.
 
-Definition init (me : Z) : state := mkState me [] [] [] [].
+(* the controller once its transport is constructed; [init0]: before that
+   (start-up, slow constructor, between Execute retries) *)
+Definition init (me : Z) : state := mkState me [] [] [] [] true.
+Definition init0 (me : Z) : state := mkState me [] [] [] [] false.
 
 (* does HandleLinkLost wake the resolvers?  regenerated from the source *)
 (* both flush branches of HandleLinkLost (fast path, slow path) call broadcast() *)
@@ -69,7 +73,8 @@ Definition lost_broadcasts : bool := 2 <=? link_lost_broadcast_calls.
 Inductive action :=
 | Est (p : nat)                   (* HandleLinkEstablished(lnk) lock region *)
 | Lost (p : nat)                  (* HandleLinkLost(lnk) lock region *)
-| Resolve (src dst : Z).          (* one iteration of establishLinkResolver.Resolve *)
+| Resolve (src dst : Z)           (* a reference on EstablishLinkWithPeer(src, dst) *)
+| Ready.                          (* Execute: the constructor returned; c.tpt, c.peerID set; broadcast() *)
 
 Section Ctl.
   Variable U : nat -> link.
@@ -88,16 +93,16 @@ Section Ctl.
     mkState (st_peer s)
             (adel (uuid_of p) (st_links s))
             (match pl with [] => adel r (st_by_peer s) | _ => aset r pl (st_by_peer s) end)
-            (p :: st_closed s) (st_dirs s).
+            (p :: st_closed s) (st_dirs s) (st_ready s).
 
   Definition insert (s : state) (p : nat) : state :=
     mkState (st_peer s)
             (aset (uuid_of p) p (st_links s))
             (aset (remote_of p) (peer_links (remote_of p) s ++ [p]) (st_by_peer s))
-            (st_closed s) (st_dirs s).
+            (st_closed s) (st_dirs s) (st_ready s).
 
   Definition close_only (s : state) (p : nat) : state :=
-    mkState (st_peer s) (st_links s) (st_by_peer s) (p :: st_closed s) (st_dirs s).
+    mkState (st_peer s) (st_links s) (st_by_peer s) (p :: st_closed s) (st_dirs s) (st_ready s).
 
   (* HandleLinkEstablished (execCtx non-nil, transport resolved) *)
   Definition do_est (s : state) (p : nat) : state :=
@@ -115,13 +120,13 @@ Section Ctl.
     let slow :=
       match find_val p (st_links s) with
       | Some k =>
-          flush (mkState (st_peer s) (adel k (st_links s)) (st_by_peer s) (st_closed s) (st_dirs s)) p
+          flush (mkState (st_peer s) (adel k (st_links s)) (st_by_peer s) (st_closed s) (st_dirs s) (st_ready s)) p
       | None => s
       end in
     match aget (uuid_of p) (st_links s) with
     | Some q =>
         if Nat.eqb q p
-        then flush (mkState (st_peer s) (adel (uuid_of p) (st_links s)) (st_by_peer s) (st_closed s) (st_dirs s)) p
+        then flush (mkState (st_peer s) (adel (uuid_of p) (st_links s)) (st_by_peer s) (st_closed s) (st_dirs s) (st_ready s)) p
         else slow
     | None => slow
     end.
@@ -129,13 +134,14 @@ Section Ctl.
   (* values of an EstablishLinkWithPeer(src, dst) directive after one pass of
      the resolver loop (resolveEstablishLink + establishLinkResolver.Resolve) *)
   Definition resolve (s : state) (src dst : Z) : list nat :=
-    if Z.eqb dst 0 then []
+    if negb (st_ready s) then []      (* the resolver waits in GetTransport: nothing emitted yet *)
+    else if Z.eqb dst 0 then []
     else if negb (Z.eqb src 0) && negb (Z.eqb src (st_peer s)) then []
     else peer_links dst s.
 
   (* ---- running directives ---- *)
   Definition set_dirs (s : state) (d : list (Z * Z * list nat)) : state :=
-    mkState (st_peer s) (st_links s) (st_by_peer s) (st_closed s) d.
+    mkState (st_peer s) (st_links s) (st_by_peer s) (st_closed s) d (st_ready s).
 
   Fixpoint dir_find (src dst : Z) (d : list (Z * Z * list nat)) : option (list nat) :=
     match d with
@@ -158,6 +164,9 @@ Section Ctl.
   Definition est_stores (s : state) (p : nat) : bool :=
     negb (Z.eqb (remote_of p) (st_peer s)) &&
     negb (option_eqb Nat.eqb (aget (uuid_of p) (st_links s)) (Some p)).
+
+  Definition set_ready (s : state) : state :=
+    mkState (st_peer s) (st_links s) (st_by_peer s) (st_closed s) (st_dirs s) true.
 
   (* did HandleLinkLost find the link (fast or slow path)? *)
   Definition lost_flushes (s : state) (p : nat) : bool :=
@@ -186,6 +195,11 @@ Section Ctl.
           let s1 := dir_start s src dst in
           let s2 := if Z.eqb src 0 then dir_start s1 (st_peer s) dst else s1 in
           (s2, match dir_find src dst (st_dirs s2) with Some v => v | None => [] end)
+    | Ready =>
+        (* every resolver parked in GetTransport now makes its pass: the source
+           check happens HERE, against the transport's peer id, whenever the
+           directive arrived *)
+        (refresh (set_ready s), [])
     end.
 
   Definition step := step_gen lost_broadcasts.
@@ -225,6 +239,7 @@ Section Ctl.
         else p :: filter (fun q => negb (Z.eqb (uuid_of q) (uuid_of p))) L
     | Lost p => filter (fun q => negb (Nat.eqb q p)) L
     | Resolve _ _ => L
+    | Ready => L
     end.
   Definition live (me : Z) (h : list action) : list nat := fold_left (live_step me) h [].
 End Ctl.
